@@ -1,8 +1,38 @@
+_MODELLED = [
+    "pkg/allocator/bitmap.go: NewIPAllocator geometry, Allocate, AllocateSpecific, Release, ReleasePrefix, SetAllocation, Lookup, LookupByPrefix, ListAllocations, Stats, findFreeIndex (hint, two segments), getPrefixByIndex/getIndexByPrefix incl. the Uint64() truncations",
+    "pkg/allocator/epoch_bitmap.go: Allocate, Renew, Release, Lookup, LookupByIP, AdvanceEpoch (+clean-up), Stats, isGenerationFree (2-bit distance, byte(grace)), indexToIP/ipToIndex (byte arithmetic)",
+    "pkg/dhcp/pool.go: generateAvailableIPs, Allocate, Reserve, Release(ip), MarkUnavailable, Stats",
+    "pkg/dhcpv6/server.go: NewAddressPool/NewPrefixPool (first 1000 units, bit placement), Allocate, Release",
+    "pkg/pppoe/server.go: NewIPPool universe, IPPool.Allocate/Release",
+    "pkg/pool/peer.go: generateAvailableIPs, allocateLocal, releaseLocal, Get, Stats on a single-node PeerPool",
+    "pkg/nexus/client.go: AllocateIPForSubscriber, allocateFromPool (FNV-1a mod hosts, byte adds, unmasked base), ReleaseSubscriberIP, LookupSubscriberIP",
+]
+_ASSUME = [
+    "theorems are about the hand-written Models (sequential); the tie to the Go code is the differential run of this check (sampled + small-exhaustive), one stream per implementation",
+    "concurrent callers: NOT proved. Validation only: every pool type keeps its state behind one mutex held for the whole exported method (pppoe.IPPool since fix 9686c62); stream 'concurrent' drives real objects from 4-8 goroutines and Coq evaluates the Spec invariant on the final snapshot",
+    "universes of dhcp.Pool / LocalPool / PrefixPool (byte additions, uint32 addition, bit placement): NoDup and inside-the-CIDR are checked per generated case inside Coq, and proved for all geometries only for the bitmap, AddressPool and pppoe constructions",
+    "nexus client is driven over a harness Store that delivers watch events synchronously and in order (nexus.MemoryStore starts a goroutine per event; a late echo can overwrite a newer cached record - observed once, outside this sequential tie)",
+    "DistributedAllocator / PoolAllocator (store failure oracle) are covered under C12, not here",
+    "IPv6 geometry of the epoch allocator is not modelled: the code itself is IPv4 only (baseIP = To4())",
+]
 SPEC = {
     "props": "Props/C01.v",
     "check_vo": ["Model/PoolCheck.vo"],
     "driver": "c01",
     "driver_args": ["-prop", "C01"],
-    "component": "address/prefix pools",
-    "clauses": {0: "unique", 1: "in_range", 2: "stable", 9: "malformed trace"},
+    "driver_timeout": 2400,
+    "component": "address/prefix pools (bitmap, epoch, dhcp4pool, v6addr, v6prefix, pppoe, localpool, hashalloc)",
+    "clauses": {0: "unique: a unit is never given to / reported for a second holder",
+                1: "in_range: every assigned unit is one of the pool's usable units",
+                2: "stable: a holder that asks again (Allocate / Lookup) gets the value it holds",
+                9: "malformed trace"},
+    "rule": "a case = one pool configuration + one operation history run on the REAL object (exported API) and on the Model inside Coq; projected observables: returned address as integer (relative to the base), error class, Lookup/Stats/ListAllocations answers; distinct = distinct case terms. Stream 'concurrent': final snapshot of a real object driven by goroutines, Spec invariant evaluated in Coq",
+    "assumptions": _ASSUME,
+    "modelled": _MODELLED,
+}
+MANIFEST = {
+    "text": "Every pool implementation has an executable Model (bitmap with hint scan and 64-bit truncations; epoch allocator with 2-bit generations and a ghost true-age; one parametric free-list Model for dhcp.Pool, DHCPv6 address/prefix pools, pppoe.IPPool, LocalPool; the nexus hash allocator). Theorems by induction over ALL operation histories and all geometries: uniqueness (holder->unit injective), range (index < total, address + unit size inside the CIDR, disjoint units), stability (asking again returns the held value and changes nothing), answers reflect state. Hash allocation: uniqueness and range refuted by computed witnesses (known findings K01a/K01b, replayed on the real nexus client). The Models are evaluated inside Coq on traces recorded from the real Go objects on every run (8 streams + concurrent stress snapshots), with a trace monitor of the property.",
+    "note": "Theorems are about the Models; the tie is differential (exhaustive over small alphabets to length 2-5, random to 200 ops, geometry sweep). Concurrency is validated (mutex discipline + stress snapshots), not proved. pppoe.IPPool stability holds only after fix 9686c62.",
+    "technique": "Rocq proof (invariants over fold_left histories, bit-set and association-map lemmas, geometry arithmetic) + differential correspondence with vm_compute evaluation of the Models and a Spec acceptor",
+    "design_ref": "DESIGN.md §8 C01",
 }
